@@ -51,20 +51,21 @@ def _worker_run(job):
             built = c12_gen.build(case['spec'], case['tag'])
         else:
             built = {'src': case['src'], 'entry': case['entry'], 'args': case['args'], 'fn_conv': case.get('fn_conv', {}), 'wraps': case.get('wraps', []),
+                     'entry_file': case.get('entry_file'), 'helper_file': case.get('helper_file'), 'helper_src': case.get('helper_src'),
+                     'helper_names': case.get('helper_names'),
                      'recursive': case.get('recursive', True)}
-        name = 'c12case_%s' % case['tag']
-        path = os.path.join(_W['dir'], name + '.py')
         signal.signal(signal.SIGALRM, _on_alarm)
         signal.alarm(120)            # a case that does not terminate is a semantic divergence (C01's domain), not a hang of the check
         try:
-            res = c12_real.analyse_case(built, path, name, want_corr)
+            res = c12_real.analyse_case(built, _W['dir'], case['tag'], want_corr)
         except _CaseTimeout:
             res = {'status': 'timeout', 'fails': [], 'corr': [], 'stats': {}}
         finally:
             signal.alarm(0)
-        res['path'] = path
         res['src'] = built['src']; res['entry'] = built['entry']; res['args'] = built['args']; res['fn_conv'] = built.get('fn_conv', {})
         res['recursive'] = built.get('recursive', True); res['wraps'] = built.get('wraps', [])
+        for k in ('entry_file', 'helper_file', 'helper_src', 'helper_names'):
+            res[k] = built.get(k)
         return idx, res
     except Exception:
         return idx, {'status': 'harness-error', 'error': traceback.format_exc()[-1500:], 'fails': [], 'corr': [], 'stats': {}}
@@ -122,6 +123,17 @@ def sweep_specs(rng):
                               ctxs=[rng.choice(sorted(set(c12_gen.CONTEXTS)))] if rng.random() < 0.5 else []) for l in pat]
                 fns.append(leaf(kind=kind, form='assign'))
                 out.append({'fns': fns, 'x': 2, 'recursive': rec})
+    # file names of the user modules: every name once as a single-file program, and as the helper module holding the
+    # unconverted tail of a chain (non-recursive entry; do_not_convert callee; builtin calling back)
+    for fname in c12_gen.FILE_NAMES:
+        out.append({'fns': [caller('direct', form='assign'), leaf(kind='raise-ValueError')], 'x': 2, 'files': {'entry': fname}})
+        other = c12_gen.FILE_NAMES[(c12_gen.FILE_NAMES.index(fname) + 7) % len(c12_gen.FILE_NAMES)]
+        out.append({'fns': [caller('direct', form='assign', ctxs=['for']), leaf(kind='KeyError', form='assign')], 'x': 2, 'recursive': False,
+                    'files': {'entry': other, 'helper': fname, 'split': 1}})
+        out.append({'fns': [caller('direct', form='return'), caller('dnc', form='assign'), caller('direct', form='augassign'),
+                            leaf(kind='raise-U')], 'x': 2, 'files': {'entry': 'main prog.py', 'helper': fname, 'split': rng.choice([2, 3])}})
+        out.append({'fns': [caller('map', form='assign'), leaf(kind='ZeroDivisionError', form='return')], 'x': 2,
+                    'files': {'entry': fname, 'helper': 'sub/' + fname, 'split': 1}})
     for link in sorted(set(c12_gen.LINKS)) + sorted(c12_gen.EXTRA_LINKS):
         out.append({'fns': [caller(link, form='assign'), leaf(kind='KeyError', form='assign')], 'x': 2})
         out.append({'fns': [caller('direct', form='expr'), caller(link, form='return'), leaf(kind='raise-ValueError')], 'x': 2})
@@ -475,6 +487,7 @@ def process(run, cases, corr_every=1, full=True):
             continue          # one recorded witness per (oracle, class); the rest is counted above
         seen.add(key)
         run.fail(f['what'], {'src': res['src'], 'entry': res['entry'], 'args': res['args'], 'fn_conv': res['fn_conv'], 'recursive': res.get('recursive', True), 'wraps': res.get('wraps', []), 'symlink': bool(case.get('symlink')),
+                             'entry_file': res.get('entry_file'), 'helper_file': res.get('helper_file'), 'helper_src': res.get('helper_src'), 'helper_names': res.get('helper_names'),
                              'spec': case.get('spec'), 'oracle': f['oracle'], 'corpus': case.get('corpus')}, cls)
 
     # a listed finding whose class was not observed is reported in the evidence (a fix in /repo makes the listing stale;
@@ -502,7 +515,7 @@ def replay(run, path):
     with open(path) as f:
         rep = json.load(f)
     case = rep.get('case', rep)
-    case = {k: v for k, v in case.items() if k in ('src', 'entry', 'args', 'fn_conv', 'spec', 'recursive', 'symlink', 'wraps') and v is not None}
+    case = {k: v for k, v in case.items() if k in ('src', 'entry', 'args', 'fn_conv', 'spec', 'recursive', 'symlink', 'wraps', 'entry_file', 'helper_file', 'helper_src', 'helper_names') and v is not None}
     if 'src' not in case:
         case = {'spec': case['spec'], 'symlink': case.get('symlink', False)}
     run.translate(['Errors'])
